@@ -1072,9 +1072,9 @@ func TestVerifC09(t *testing.T) {
 		{connect, frame(cmd(11, "a", int(c09Subscribe))), frame(cmd(12, "", int(c09Rpc))), completeFirst(c09Scr{Kind: "ok"}), completeFirst(c09Scr{Kind: "ok"})},
 		{connect, frame(cmd(7, "", int(c09Send)))},                               // send carrying an id: no reply
 		{connect, frame(cmd(0, "", int(c09Send)))},
-		{connect, frame(cmd(5, "", int(c09Ping)))},                               // legacy ping alone: bad request
-		{connect, frame(cmd(5, "", int(c09Ping), int(c09Rpc)))},                  // ping + rpc: not available
-		{connect, frame(cmd(5, "", int(c09Connect)))},                            // second connect
+		{connect, frame(cmd(4, "", int(c09Ping)))},                               // legacy ping alone: bad request
+		{connect, frame(cmd(4, "", int(c09Ping), int(c09Rpc)))},                  // ping + rpc: not available
+		{connect, frame(cmd(4, "", int(c09Connect)))},                            // second connect
 		{frame(cmd(8, "", int(c09Connect)))},                                     // connect error: reply, reader stops
 		{frame(cmd(10, "", int(c09Connect)))},                                    // connect disconnect
 		{connect, frame()},                                                       // empty frame
@@ -1091,6 +1091,17 @@ func TestVerifC09(t *testing.T) {
 		corpus = append(corpus, []func(h *c09Harness) *c09Label{connect, frame(cmd(6, "a", k)), frame(cmd(7, "b", k)), frame(cmd(22, "c", k)), frame(cmd(3, "", int(c09Rpc)))})
 		corpus = append(corpus, []func(h *c09Harness) *c09Label{connect, frame(cmd(11, "a", k)), frame(cmd(12, "b", k)), completeFirst(c09Scr{Kind: "engine"}), completeFirst(c09Scr{Kind: "engine"}), frame(cmd(3, "", int(c09Rpc)))})
 	}
+	// OnCommandRead refuses the command: ids 21 (typed error), 53 (untyped error), 5 (disconnect)
+	corpus = append(corpus,
+		[]func(h *c09Harness) *c09Label{frame(cmd(21, "", int(c09Connect)))}, // before the writer exists
+		[]func(h *c09Harness) *c09Label{frame(cmd(53, "", int(c09Connect)))},
+		[]func(h *c09Harness) *c09Label{frame(cmd(5, "", int(c09Connect)))},
+		[]func(h *c09Harness) *c09Label{connect, frame(cmd(21, "", int(c09Rpc))), frame(cmd(53, "a", int(c09Subscribe))), frame(cmd(2, "a", int(c09Subscribe)))},
+		[]func(h *c09Harness) *c09Label{connect, frame(cmd(21, "", int(c09Send))), frame(cmd(3, "", int(c09Rpc)))}, // a send that is answered
+		[]func(h *c09Harness) *c09Label{connect, frame(cmd(2, "", int(c09Rpc)), cmd(5, "", int(c09Rpc)), cmd(3, "", int(c09Rpc)))},
+		[]func(h *c09Harness) *c09Label{connect, frame(cmd(21, "", int(c09Connect)))}, // second connect refused by the hook: error, not 3501
+		[]func(h *c09Harness) *c09Label{connect, frame(cmd(21, "", int(c09Ping)))},
+	)
 	for i := 0; i < w.N; i++ {
 		if !w.Want(i) {
 			continue
